@@ -7,5 +7,5 @@
 //@pin file=lrpar/src/lib/ctbuilder.rs fn=gen_token_epp sha=5dbc290e78500f96
 //@pin file=lrpar/src/lib/ctbuilder.rs fn=gen_user_actions sha=fa059b4980ab20d9
 //@pin file=lrpar/src/lib/ctbuilder.rs fn=gen_wrappers sha=c7a1a043cccc2e33
-//@pin file=lrpar/src/lib/ctbuilder.rs fn=build sha=4a616821258a8b19
+//@pin file=lrpar/src/lib/ctbuilder.rs fn=build sha=e5a3f0ca186519b7
 //@use prelude/tail.rs
